@@ -16,14 +16,15 @@ LEVEL = 'model_checking'
 EPS = 1e-6
 NL = 2
 PALETTE = ['000000', 'ff0000', '00ff00', '0000ff', 'ffffff']
+PALRGB = {tuple(int(c[i:i + 2], 16) for i in (0, 2, 4)) for c in PALETTE}      # = Pal in specs/Shows/Shows.tla
 KINDS = ('played', 'looped', 'completed', 'stopped')
 XKINDS = ('advanced', 'stepped_back', 'paused', 'resumed', 'updated')
 SLOT_KEYS = ('durs', 'lt', 'col', 'coil', 'sp', 'loops', 'start', 'sync', 'manual', 'prio', 'key', 'blockq',
-             'pool', 'via', 'form', 'tok', 'share', 'same', 'quiet')
+             'pool', 'via', 'form', 'tok', 'share', 'same', 'quiet', 'fd')
 
 
 def S(durs, lt=None, col=None, coil=None, sp=(1, 1), loops=0, start=1, sync=0, manual=False, prio=1, key='a',
-      blockq=False, pool=False, via='player', form='d', tok=False, share=0, quiet=False):
+      blockq=False, pool=False, via='player', form='d', tok=False, share=0, quiet=False, fd=None):
     """One show slot: step durations in units (-1: hold), light (0: none) / colour / coil (1: enable) per step.
 
     sync: the sync grid of the request in units; 0: an explicit sync_ms 0; -1: sync_ms is not given (the machine-wide
@@ -31,14 +32,15 @@ def S(durs, lt=None, col=None, coil=None, sp=(1, 1), loops=0, start=1, sync=0, m
     tok: lights, colours and the step events of the show file are tokens filled in by the play request;
     share=n: the slot plays the show file of slot n (with its own token values);
     quiet: the request names no events_when_played / events_when_stopped (show_player may then keep a running instance
-    of the very same config instead of replacing it).
+    of the very same config instead of replacing it);
+    fd: per step, the fade the step gives for its light in units (-1: none given - the light's default fade applies).
     """
     n = len(durs)
     return dict(durs=list(durs), lt=list(lt if lt is not None else [1] * n),
                 col=list(col if col is not None else [(i % 4) + 1 for i in range(n)]),
                 coil=list(coil if coil is not None else [0] * n), sp=list(sp), loops=loops, start=start, sync=sync,
                 manual=manual, prio=prio, key=key, blockq=blockq, pool=pool, via=via, form=form, tok=tok, share=share,
-                same=0, quiet=quiet)
+                same=0, quiet=quiet, fd=list(fd if fd is not None else [-1] * n))
 
 
 def AGAIN(n):
@@ -46,21 +48,21 @@ def AGAIN(n):
     return {'same': n}
 
 
-def CFG(i, unit, *slots, fade=0, dsync=0):
-    """A scenario: unit length in ms, one to three show slots, default fade of light l2 in units, the machine-wide
-    default_show_sync_ms in units (0: the machine configures none)."""
+def CFG(i, unit, *slots, fade=0, fades=None, dsync=0):
+    """A scenario: unit length in ms, one to four show slots, default fade of light l2 in units (or fades = those of
+    l1 and l2), the machine-wide default_show_sync_ms in units (0: the machine configures none)."""
     sh = []
     for s in slots:
         if set(s) == {'same'}:
             o = sh[s['same'] - 1]
             assert o['via'] == 'player' and not o['same']
             s = dict(o, durs=list(o['durs']), lt=list(o['lt']), col=list(o['col']), coil=list(o['coil']),
-                     sp=list(o['sp']), same=s['same'])
+                     sp=list(o['sp']), fd=list(o['fd']), same=s['same'])
         sh.append(s)
     # every schedule starts at a multiple of 16 s: all sync grids (whole ms) must divide it
     for g in [dsync] + [s['sync'] for s in sh]:
         assert g <= 0 or (abs(g * unit - round(g * unit)) < 1e-9 and 16000 % round(g * unit) == 0), (i, g)
-    return dict(id=i, unit=unit, sh=sh, fade=fade, dsync=dsync)
+    return dict(id=i, unit=unit, sh=sh, fades=list(fades) if fades is not None else [0, fade], dsync=dsync)
 
 
 TABLE = [
@@ -120,12 +122,34 @@ TABLE = [
         AGAIN(2), dsync=4),
     CFG(44, 50, S([2, 2], lt=[1, 2], loops=0, sync=2, key='a', blockq=True, pool=True),
         S([1], lt=[2], col=[4], loops=2, sync=-1, key='b', prio=3), dsync=4),
+    # --- several shows at different priorities on the SAME light, on lights that fade (default fade of the light and / or
+    #     fades given by the steps): a show that stops or completes UNDER another one that holds an opaque colour on the
+    #     light for longer than the fade, the top one first, both at once, the covered one played again under the cover;
+    #     then a later show below everything that fades in as on a clean light
+    CFG(50, 100, S([2, 2], lt=[2, 2], col=[1, 2], loops=-1, prio=1, key='a'),
+        S([-1], lt=[2], col=[3], loops=0, prio=5, key='b', via='direct'),
+        S([4], lt=[2], col=[2], fd=[3], loops=1, prio=0, key='c'), fade=2),
+    CFG(51, 100, S([1, 1], lt=[1, 1], col=[1, 4], loops=0, prio=2, key='a'),
+        S([3, 3], lt=[1, 2], col=[3, 4], loops=-1, prio=6, key='b'), AGAIN(1), fades=[1, 0]),
+    CFG(52, 100, S([2, 1], lt=[1, 2], col=[1, 2], fd=[2, -1], loops=-1, prio=1, key='a'),
+        S([1, 2], lt=[2, 1], col=[3, 4], fd=[-1, 0], loops=-1, prio=4, key='b', via='direct'),
+        S([3, 3], lt=[1, 2], col=[2, 1], loops=1, prio=8, key='c'), fades=[1, 2]),
+    CFG(53, 100, S([3], lt=[1], col=[1], fd=[2], loops=-1, prio=1, key='a', quiet=True),
+        S([2, 2], lt=[1, 1], col=[3, 4], fd=[1, 0], loops=0, prio=3, key='b'), AGAIN(1)),
+    CFG(54, 125, S([1, 1], lt=[1, 1], col=[1, 2], loops=-1, prio=1, key='a'),
+        S([2], lt=[1], col=[3], loops=-1, prio=2, key='a', pool=True, sync=2),
+        S([-1], lt=[1], col=[4], fd=[0], loops=0, prio=7, key='b', via='direct'), fades=[2, 0]),
+    CFG(55, 100, S([1, 1], lt=[2, 2], col=[1, 2], loops=-1, prio=1, key='a'),
+        S([-1], lt=[2], col=[3], loops=0, prio=5, key='b'), fade=1),
+    CFG(56, 100, S([1], lt=[1], col=[1], fd=[2], loops=1, prio=3, key='a'),
+        S([2], lt=[1], col=[4], loops=1, prio=6, key='b', via='direct'), fades=[1, 0]),
 ]
+COVER_IDS = (50, 51, 52, 53, 54, 55, 56)
 CFGS = {c['id']: c for c in TABLE}
 
 
 def cfg_rec(c):
-    return {'id': c['id'], 'fade': c['fade'], 'dsync': c['dsync'], 'sh': [{k: s[k] for k in SLOT_KEYS} for s in c['sh']]}
+    return {'id': c['id'], 'fades': c['fades'], 'dsync': c['dsync'], 'sh': [{k: s[k] for k in SLOT_KEYS} for s in c['sh']]}
 
 
 def dsync_ms(c):
@@ -182,10 +206,11 @@ def show_yaml(cid, sh, sc, unit):
         if sc['lt'][k - 1]:
             lt, col = sc['lt'][k - 1], sc['col'][k - 1]
             L.append('  lights:')
-            if sc['tok']:
-                L.append('    (l%d): (c%d)' % (k, k))
+            name, colour = ('(l%d)' % k, '(c%d)' % k) if sc['tok'] else ('l%d' % lt, '"%s"' % PALETTE[col])
+            if sc['fd'][k - 1] >= 0:
+                L += ['    %s:' % name, '      color: %s' % colour, '      fade: %s' % _ms(sc['fd'][k - 1], unit)]
             else:
-                L.append('    l%d: "%s"' % (lt, PALETTE[col]))
+                L.append('    %s: %s' % (name, colour))
         if sc['coil'][k - 1] == 1:
             L += ['  coils:', '    c1: enable']
     if form == 'abs':
@@ -407,8 +432,8 @@ def _exec(mdir, cid, sched, skip, dynamic):
     repl = [False] * (nsl + 1)
     qd = []
     lights = [m.lights['l%d' % i] for i in range(1, NL + 1)]
-    lights[0].default_fade_ms = 0
-    lights[1].default_fade_ms = c['fade'] * c['unit']
+    for lt, f in zip(lights, c['fades']):
+        lt.default_fade_ms = f * c['unit']
     notes = []
     cov = {}
     if not skip:
@@ -465,6 +490,12 @@ def _exec(mdir, cid, sched, skip, dynamic):
         del log[:]
         del qd[:]
         rec['S'] = Sx
+        # the whole stack of every light, whoever put the entries there
+        slot_of = {rs[sh].context + '.light_player': sh for sh in range(1, nsl + 1) if rs[sh] is not None}
+        rec['stk'] = [[[slot_of.get(e.key, 0), int(e.priority), e.dest_color is None] for e in lt.stack] for lt in lights]
+        rec['rgb'] = [[int(v) for v in lt.get_color().rgb] for lt in lights]
+        rec['hw'] = [[int(round(255 * lt.hw_drivers[ch][0].current_brightness)) for ch in ('red', 'green', 'blue')]
+                     for lt in lights]
         rec['lg'] = [colidx(lt.get_color()) for lt in lights]
         rec['co'] = coil.hw_driver.state == 'enabled'
         return rec
@@ -521,6 +552,15 @@ def _exec(mdir, cid, sched, skip, dynamic):
         elif op == 'stop':
             if r is not None and not r.stopped and r.current_step_index is None:
                 count('stop of a show that waits for its sync point')
+            if r is not None and not r.stopped:
+                mykey = r.context + '.light_player'
+                for lt in lights:
+                    mine = [e for e in lt.stack if e.key == mykey]
+                    if mine and lt.default_fade_ms:
+                        above = [e for e in lt.stack if e.priority > mine[0].priority and e.dest_color is not None]
+                        below = [e for e in lt.stack if e.priority < mine[0].priority]
+                        count('stop of a show on a light that fades out: %s' % (
+                            'under a higher show' if above else 'over a lower show' if below else 'alone on the light'))
             m.events.post('vs_stop_' + kn) if player else r.stop()
         elif op == 'pause':
             m.events.post('vs_pause_' + kn) if player else r.pause()
@@ -575,13 +615,13 @@ def _exec(mdir, cid, sched, skip, dynamic):
 
 
 # ------------------------------------------------------------------ model checking / generation configs
-def mc_module(table):
-    return """------------------------------ MODULE ShowsMC ------------------------------
+def mc_module(table, name='ShowsMC'):
+    return """------------------------------ MODULE %s ------------------------------
 EXTENDS Shows
 MCConfigs == {%s}
 MCSpeeds == {<<1, 1>>, <<2, 1>>, <<1, 2>>}
 =============================================================================
-""" % ',\n   '.join(to_tla(cfg_rec(c)) for c in table)
+""" % (name, ',\n   '.join(to_tla(cfg_rec(c)) for c in table))
 
 
 MC_CFG = """SPECIFICATION Spec
@@ -599,7 +639,8 @@ CONSTANTS
 %sCHECK_DEADLOCK FALSE
 """
 PROPS = ('INVARIANT TypeOK\nINVARIANT OnSchedule\nINVARIANT NeverEarly\nINVARIANT SyncOnGrid\nINVARIANT EventsOnce\n'
-         'INVARIANT CleanAfterStop\nINVARIANT KeyExclusive\nPROPERTY LoopsAndCompletion\nPROPERTY StartStep\n'
+         'INVARIANT CleanAfterStop\nINVARIANT NoResidue\nINVARIANT OffWhenAllOver\nINVARIANT KeyExclusive\n'
+         'PROPERTY LoopsAndCompletion\nPROPERTY StartStep\nPROPERTY StopTouchesOnlyOwn\n'
          'PROPERTY PausedIsSilent\nPROPERTY QueueReleasedAtEnd\nPROPERTY SyncHonoured\nPROPERTY ReplacedAtStart\n')
 TRACE_CFG = """SPECIFICATION TSpec
 CONSTANTS
@@ -613,15 +654,21 @@ CONSTANTS
   NL = 2
   OddOps = TRUE
   Deviations = %s
+  StrictOwn = %s
+  HwTol = 3
 INVARIANT Reporter
 %s"""
 MONITORS = """INVARIANT OnSchedule
 INVARIANT NeverEarly
 INVARIANT EventsOnce
 INVARIANT CleanAfterStop
+INVARIANT NoResidue
+INVARIANT NoResidueSeen
+INVARIANT OffWhenAllOver
 INVARIANT KeyExclusive
 PROPERTY LoopsAndCompletion
 PROPERTY StartStep
+PROPERTY StopTouchesOnlyOwn
 PROPERTY QueueReleasedAtEnd
 PROPERTY SyncHonoured
 PROPERTY ReplacedAtStart
@@ -629,9 +676,11 @@ CHECK_DEADLOCK FALSE
 """
 
 
-def trace_cfg(deviations=(), monitors=True):
+def trace_cfg(deviations=(), monitors=True, strict=True):
+    """strict: the step relation demands that the observed light stacks are exactly the model's.  Without it (used only to
+    NAME what a rejected trace shows) entries beyond the model's are left to the monitor NoResidueSeen."""
     dev = '{' + ', '.join('"%s"' % d for d in deviations) + '}'
-    return TRACE_CFG % (dev, MONITORS if monitors else 'CHECK_DEADLOCK FALSE\n')
+    return TRACE_CFG % (dev, 'TRUE' if strict else 'FALSE', MONITORS if monitors else 'CHECK_DEADLOCK FALSE\n')
 
 
 def handmade():
@@ -679,6 +728,40 @@ def handmade():
     ]
 
 
+def handmade_cover():
+    """Shows that end under / over / together with another show on the same fading light."""
+    P = lambda sh: {'op': 'play', 'sh': sh}
+    St = lambda sh: {'op': 'stop', 'sh': sh}
+    A = {'op': 'adv'}
+    return [
+        # the lower show is stopped while the higher one holds the light for longer than the fade; then the cover goes,
+        # then a later show at the bottom fades in (as on a clean light)
+        (50, [P(1), P(2), A, A, A, St(1), A, A, A, A, St(2), A, A, A, P(3), A, A, A, A, A, A]),
+        # the top one first
+        (50, [P(1), A, P(2), A, A, St(2), A, A, A, St(1), A, A, A, P(3), A, A, A, A]),
+        # both in the same instant, either order
+        (50, [P(1), P(2), A, A, St(1), St(2), A, A, A, P(3), A, A, A, A]),
+        (50, [P(2), P(1), A, A, A, St(2), St(1), A, A, A, P(3), A, A, A, A]),
+        # the later show fades in under the cover while the covered one fades out
+        (50, [P(2), A, P(1), A, St(1), P(3), A, A, A, St(2), A, A, A, A, A]),
+        # the lower show COMPLETES under the cover; the same request again under the cover (during the fade-out, after it)
+        (51, [P(2), P(1), A, A, A, A, St(2), A, A]),
+        (51, [P(2), A, P(1), A, A, P(3), A, A, A, A, St(2), A, A]),
+        (51, [P(1), P(2), St(1), P(3), A, A, A, St(2), A, A]),
+        (51, [P(1), P(2), A, St(2), A, A, A]),
+        # three priorities: the middle one goes, then the bottom one, then the top completes
+        (52, [P(1), P(2), P(3), A, A, St(2), A, A, A, St(1), A, A, A, A, A, A]),
+        (52, [P(3), P(1), A, P(2), A, St(1), A, St(2), A, A, A, A, A]),
+        (52, [P(1), P(2), A, A, A, St(1), St(2), A, A, A]),
+        # fades given by the steps only (removals are instant)
+        (53, [P(1), A, P(2), A, A, St(1), A, P(3), A, A, A, A, St(3), A]),
+        (53, [P(2), P(1), A, St(1), A, A, A, A, P(3), A, A, A]),
+        # a show replaced in sync under its key, all of it under a cover
+        (54, [P(3), P(1), A, A, P(2), A, A, A, A, St(2), A, A, A, St(3), A, A, A]),
+        (54, [P(1), A, P(3), P(2), St(2), A, A, A, St(3), A, A]),
+    ]
+
+
 def handmade_odd():
     P = lambda sh: {'op': 'play', 'sh': sh}
     A = {'op': 'adv'}
@@ -718,6 +801,43 @@ def diagnose_all(wd, cfg, traces, v):
                               'prev_event': ev[ln - 2] if 1 < ln <= len(ev) + 1 else None})
 
 
+def name_rejected(wd, traces, v, skip=(), limit=400):
+    """What do the rejected traces show?  They are validated once more with the step relation relaxed to "the model's
+    entries are on the stacks" (StrictOwn = FALSE), so that what else the lights hold is judged by the monitor NoResidueSeen
+    (no entry of a stopped show remains once its fade-out time has passed) instead of ending the trace; ResidueReport
+    prints the states that monitor rejects (one TLC run for all traces).  Acceptance was decided by the strict run; this
+    only gives the violation its name."""
+    import re
+    ids = [i for i, info in sorted(v.rejected.items()) if i not in skip and info.get('line') is not None
+           and (info.get('failing_event') or {}).get('op') != 'crash'][:limit]
+    if not ids:
+        return {}
+    with open(wd + '/TraceLoose.cfg', 'w') as f:
+        f.write(trace_cfg(monitors=False, strict=False).replace('INVARIANT Reporter', 'INVARIANT Reporter\nINVARIANT ResidueReport'))
+    path = tlc._write_batch(wd, traces, ids, 'loose.ndjson')     # pylint: disable=protected-access
+    r = tlc.check(wd, 'ShowsTrace', 'TraceLoose.cfg', workers=8, timeout=900, env={'TRACE_FILE': path, 'VERBOSE': '0'})
+    if not r.ok:
+        raise tlc.TLCError('naming run failed: %s\n%s' % (r.errors[:3], r.out[-2000:]))
+    first = {}
+    for k, ln in re.findall(r'RESIDUE (\d+) (\d+)', r.out):
+        first[int(k)] = min(first.get(int(k), 10 ** 9), int(ln))
+    named = {}
+    for k, l1 in first.items():
+        i = ids[k - 1]
+        ev = traces[i]['ev']
+        ln = l1 - 1          # the line that led to the state the monitor rejects
+        if ln > v.rejected[i]['line']:
+            continue         # the strict run stopped earlier, at something else
+        e = ev[ln - 1] if 0 < ln <= len(ev) else {}
+        over = [sh for sh, o in enumerate(e.get('S', []), 1) if not o['live']]
+        left = [[x, ent] for x, stack in enumerate(e.get('stk', []), 1) for ent in stack if ent[0] in over or ent[0] == 0]
+        named[i] = ('C17:NoResidueSeen', 'a show that has stopped or completed is still on the stack of a light after the '
+                    'light\'s fade-out time has passed (the show does not clean up after itself: its context stays on the '
+                    'light, above every later entry of lower priority) - entries [light, [slot, priority, is a fade-out]] of '
+                    'shows that are over, at that line: %s; shows that are over: %s' % (left, over), ln)
+    return named
+
+
 FINDINGS = {
     'over': ('C17:control-after-end', 'a resume/advance/step_back request reaching a show that is already over (show_player '
              'keeps a completed instance under its key) still ran on it: completed is posted again, or steps are executed '
@@ -730,7 +850,8 @@ FINDINGS = {
 def run(ctx):
     mdir = write_machine(ctx.scratch)
     wd = tlc.prepare(ctx.scratch, 'Shows', 'shows')
-    mc_ids = (1, 2, 4, 6, 10, 12, 14, 15, 18, 30, 32, 34, 41, 43) if ctx.quick else tuple(c['id'] for c in TABLE)
+    mc_ids = (1, 2, 4, 6, 10, 12, 14, 15, 18, 30, 32, 34, 41, 43, 55) if ctx.quick else \
+        tuple(c['id'] for c in TABLE if c['id'] not in (52, 53, 54))
     table = [c for c in TABLE if c['id'] in mc_ids]
     with open(wd + '/ShowsMC.tla', 'w') as f:
         f.write(mc_module(table))
@@ -740,9 +861,12 @@ def run(ctx):
     r = tlc.expect_ok(tlc.check(wd, 'ShowsMC', 'MC.cfg', workers=8, timeout=1500), 'Shows design check')
     ctx.add_tlc('ShowsMC', r, {'configs': len(table), 'MaxTime': bounds[0], 'MaxOps': bounds[1], 'Lates': bounds[2],
                                'AdvN': bounds[3], 'BackN': bounds[4]})
-    ctx.coverage['monitors'] += ['OnSchedule', 'NeverEarly', 'SyncOnGrid', 'EventsOnce', 'CleanAfterStop', 'LoopsAndCompletion',
+    ctx.coverage['monitors'] += ['OnSchedule', 'NeverEarly', 'SyncOnGrid', 'EventsOnce', 'CleanAfterStop', 'NoResidue',
+                                 'NoResidueSeen (the stacks as observed)', 'OffWhenAllOver', 'StopTouchesOnlyOwn',
+                                 'LoopsAndCompletion',
                                  'StartStep', 'PausedIsSilent', 'QueueReleasedAtEnd', 'KeyExclusive', 'SyncHonoured',
-                                 'ReplacedAtStart', 'Obs(steps, events, sched, own, live, colours, coil, differential)']
+                                 'ReplacedAtStart', 'Obs(steps, events, sched, own, live, colours, coil, differential, '
+                                 'whole light stacks, logical and hardware rgb at rest and during single fades)']
     with open(wd + '/ShowsMC.tla', 'w') as f:
         f.write(mc_module(TABLE))
     # schedules: the main batch issues requests only where the statement gives them an effect; the odd batch also
@@ -754,7 +878,15 @@ def run(ctx):
         behs, _ = tlc.simulate(wd, 'ShowsMC', label + '.cfg', num=num, depth=30 if ctx.quick else 40,
                                seed=ctx.seed + (0 if odd == 'FALSE' else 1000))
         jobs += [(mdir, b[0]['cfg']['id'], [s['act'] for s in b]) for b in behs]
-    jobs += [(mdir, cid, s) for cid, s in handmade() + handmade_odd()]
+    # ... and a batch on the scenarios with several shows at different priorities on the same fading light only
+    with open(wd + '/ShowsMCC.tla', 'w') as f:
+        f.write(mc_module([c for c in TABLE if c['id'] in COVER_IDS], 'ShowsMCC'))
+    with open(wd + '/GenCover.cfg', 'w') as f:
+        f.write(MC_CFG % (24, 8, '{1}', '{1}', '{1}', 'FALSE', ''))
+    behs, _ = tlc.simulate(wd, 'ShowsMCC', 'GenCover.cfg', num=100 if ctx.quick else 1500, depth=30 if ctx.quick else 40,
+                           seed=ctx.seed + 2000)
+    jobs += [(mdir, b[0]['cfg']['id'], [s['act'] for s in b]) for b in behs]
+    jobs += [(mdir, cid, s) for cid, s in handmade() + handmade_cover() + handmade_odd()]
     jobs.sort(key=lambda j: dsync_ms(CFGS[j[1]]))       # a worker keeps one machine booted: few switches per chunk
     traces = harness.pmap(exec_schedule, jobs, nproc=8, chunk=8)
     with open(wd + '/Trace.cfg', 'w') as f:
@@ -768,6 +900,8 @@ def run(ctx):
     for t in traces:
         for e in t['ev']:
             ops[e['op']] = ops.get(e['op'], 0) + 1
+            if any(tuple(c3) not in PALRGB for c3 in e.get('rgb', [])):
+                ops['lines with a light observed mid-fade'] = ops.get('lines with a light observed mid-fade', 0) + 1
             if e['op'] == 'adv' and any(len(x['steps']) > 1 for x in e.get('S', [])):
                 ops['adv with a show catching up'] = ops.get('adv with a show catching up', 0) + 1
     ctx.coverage['lines_by_request'] = ops
@@ -807,6 +941,9 @@ def run(ctx):
         for ln, kind in traces[i].get('_notes', []):
             if ln == info['line'] and _observed(kind, fe):
                 explained[i] = FINDINGS[kind]
+    for i, (sig, what, ln) in name_rejected(wd, traces, v, skip=explained).items():
+        explained[i] = (sig, what)
+        v.rejected[i]['named_at_line'] = ln
     for i in rej:
         info = v.rejected[i]
         fe = info.get('failing_event') or {}
@@ -830,7 +967,12 @@ def run(ctx):
                         'the same key) and stop requests',
                         'the same request arriving again is a slot of its own in the model (same = n); the event bus cannot '
                         'tell the instances of one request apart, so their step / show events are compared as a group',
-                        'mid-fade colours are not compared; colours and the differential run are compared when lights are at rest']
+                        'the differential run is compared when lights are at rest; the logical and the hardware colour (virtual '
+                        'platform channels) are compared at rest and during a fade that runs alone on its light (it starts '
+                        'while everything on the light is at rest, from the show\'s own colour or from off with nothing '
+                        'beneath, and no other fade starts before it ends); colours during overlapping fades are not judged',
+                        'priorities of concurrent shows on one light are pairwise different (the statement does not order equal '
+                        'priorities)']
 
 
 def _observed(kind, e):
